@@ -37,6 +37,7 @@ Definition fcontent_eqb (a b : fcontent) : bool :=
   | FErf l, FErf l' =>
       eqb_list (eqb_prod (eqb_prod (eqb_prod zl_eqb Z.eqb) (eqb_list zl_eqb)) zl_eqb) l l'
   | FNodes l, FNodes l' => zl_eqb l l'
+  | FMissing, FMissing => true
   | _, _ => false
   end.
 
